@@ -282,6 +282,31 @@ def sig_terms(v, out):
             sig_terms(a, out)
 
 
+def signed_text_inputs(sig_term):
+    """what the verified signature was computed over must be THIS request: its method, its path (SigV2 signs the path as sent,
+    SigV4 the percent-decoded path, which it encodes itself), its query and its headers; a deviation is described, else None"""
+    sts = [a for a in sig_term.args if isinstance(deref(a), Term) and deref(a).op == "create_string_to_sign"]
+    if not sts:
+        return None          # POST forms sign the policy field; chunk signatures are C08's
+    t = deref(sts[0])
+    a0 = deref(t.args[0])
+    if isinstance(a0, Term) and a0.op in ("create_canonical_request", "create_presigned_canonical_request"):
+        got = [vkey(x) for x in a0.args[:2]]
+        want = ["req.method", "decoded_uri_path"]
+        rest = " ".join(vkey(x) for x in a0.args[2:4])
+        if got != want:
+            return "the SigV4 canonical request is built from (%s) instead of the request's method and percent-decoded path" % ", ".join(got)
+        if "hs" not in rest or ("qs" not in rest and "[]" not in rest):
+            return "the SigV4 canonical request does not take its query / signed headers from the request (%s)" % rest[:200]
+        return None
+    got = [vkey(x) for x in t.args[1:6]]
+    want = ["req.method", "path(req.uri)", "qs", "hs", "vh_bucket"]
+    if len(t.args) >= 6 and got != want:
+        return ("the SigV2 string to sign is built from (%s); the specification signs the request's method, its path AS SENT (not percent-decoded), "
+                "its query, its headers and the virtual-host bucket" % ", ".join(got))
+    return None
+
+
 def check_check_paths(rep, ex, paths):
     """(B) SignatureContext::check: Ok(Some(identity)) only behind a successful comparison with the signature computed
     under the provider's secret for that identity; Ok(None) only if the request presents no signature."""
@@ -360,6 +385,9 @@ def check_check_paths(rep, ex, paths):
             for lit in p.pc:
                 if z3.is_eq(lit) and (z3.eq(lit.arg(0), low) or z3.eq(lit.arg(1), low)):
                     found = True
+                    w = signed_text_inputs(st)
+                    if w:
+                        bad("signed-text-inputs", w, p)
         if not found:
             bad("no-signature-comparison", "authenticated without a successful comparison against a signature computed with the provider's secret", p)
     # no provider + signature presented => refused
